@@ -48,8 +48,8 @@ SCHEMA_TEXT = {"notjson": "{not json", "invalid": json.dumps(S_INVALID), "valid"
                "valid-ref": json.dumps(S_REF), "d4only": json.dumps(S_D4ONLY)}
 SCHEMA_VALUE = {"invalid": S_INVALID, "valid": S_VALID, "valid-ref": S_REF, "d4only": S_D4ONLY}
 
-INST_STATES = ["valid", "inv1", "inv3", "missing", "notjson"]
-STDIN_STATES = ["valid", "inv3", "notjson"]
+INST_STATES = ["valid", "inv1", "inv3", "missing", "notjson", "null"]
+STDIN_STATES = ["valid", "inv3", "notjson", "null"]
 MAXPOS = 4
 
 
@@ -61,6 +61,8 @@ def inst_value(state, p):
         return {"d": 20 + p, "e": 3 + 2 * p}
     if state == "inv3":
         return {"a": "x%d" % p, "b": 10 + p, "c": 90 + p, "e": 3 + 2 * p}
+    if state == "null":
+        return None         # the JSON document `null`: loads fine, and is valid here (no keyword applies to it)
     raise KeyError(state)
 
 
